@@ -883,6 +883,6 @@ mod capture {
 }
 
 pub fn replay(v: &Value) -> i32 {
-    println!("REPLAY: C16 case args {} — re-run ./check C16 (deterministic enumeration)", v["replay"]["args"]);
-    2
+    // the cases of this check are enumerated, not stored: re-run the deterministic enumeration for the signature
+    fp_harness::report::replay_by_rerun(v, &|tier| run(tier))
 }
